@@ -888,25 +888,34 @@ var ruleEncLeadLengths = &Rule{
 			}
 			return 0, 0, false
 		}
-		var nums []*ssa.Call
+		// the announced length: an `int` value (the result of a bit-counting helper, or the phi of the counting loop once that
+		// helper is inlined) that a branch compares with a constant between 1 and 6
+		var nums []ssa.Value
 		for _, b := range det.Blocks {
 			for _, ins := range b.Instrs {
-				call, ok := ins.(*ssa.Call)
-				if !ok || call.Referrers() == nil {
+				v, ok := ins.(ssa.Value)
+				if !ok || v.Referrers() == nil {
 					continue
 				}
-				if bt, ok := types.Unalias(call.Type()).Underlying().(*types.Basic); !ok || bt.Info()&types.IsInteger == 0 {
+				switch ins.(type) {
+				case *ssa.Call, *ssa.Phi:
+				default:
 					continue
 				}
-				if _, isB := call.Call.Value.(*ssa.Builtin); isB {
+				if bt, ok := types.Unalias(v.Type()).Underlying().(*types.Basic); !ok || bt.Kind() != types.Int {
 					continue
 				}
-				for _, r := range *call.Referrers() {
+				if call, ok := ins.(*ssa.Call); ok {
+					if _, isB := call.Call.Value.(*ssa.Builtin); isB {
+						continue
+					}
+				}
+				for _, r := range *v.Referrers() {
 					if bo, ok := r.(*ssa.BinOp); ok && bo.Referrers() != nil {
-						if _, _, ok := cmpOf(bo, call); ok {
+						if _, cv, ok := cmpOf(bo, v); ok && cv >= 1 && cv <= 6 {
 							for _, rr := range *bo.Referrers() {
 								if _, isIf := rr.(*ssa.If); isIf {
-									nums = append(nums, call)
+									nums = append(nums, v)
 								}
 							}
 						}
@@ -922,10 +931,17 @@ var ruleEncLeadLengths = &Rule{
 		num := nums[0]
 		for _, k := range []int64{2, 3, 4} {
 			key := fmt.Sprintf("ENC/lead-lengths:%s:%d-byte", det.Name(), k)
-			// follow decided branches from the definition of num
-			b := num.Block()
+			// follow decided branches from the first branch that tests num
+			var b *ssa.BasicBlock
+			for _, blk := range det.Blocks {
+				if iff, ok := blk.Instrs[len(blk.Instrs)-1].(*ssa.If); ok && b == nil {
+					if _, _, ok := cmpOf(iff.Cond, num); ok {
+						b = blk
+					}
+				}
+			}
 			var from *ssa.BasicBlock
-			verdict, note, site := OK, "not rejected by the length comparisons alone", c.Pos(num.Pos())
+			verdict, note, site := OK, "not rejected by the length comparisons alone", c.Pos(det.Pos())
 			for steps := 0; steps < 64 && b != nil; steps++ {
 				last := b.Instrs[len(b.Instrs)-1]
 				switch x := last.(type) {
